@@ -14,6 +14,10 @@ from . import symx
 from .symx import Sym, lift, Inconclusive
 
 
+from collections import Counter
+STATS = Counter()      # solver work outside the path solver (read by the harness per path)
+
+
 class FlowCall:
     def __init__(self, dfunc, X0, times, args, out, kind):
         self.dfunc, self.X0, self.times, self.args, self.out, self.kind = dfunc, X0, times, args, out, kind
@@ -205,7 +209,7 @@ def lie_derivative(E, xs, fs):
 def to_frac(e, cache):
     k = e.get_id()
     if k in cache:
-        return cache[k]
+        return cache[k][:2]
     one = z3.RealVal(1)
     if z3.is_rational_value(e) or z3.is_int_value(e) or z3.is_const(e):
         r = (e, one)
@@ -260,7 +264,7 @@ def to_frac(e, cache):
         else:
             raise symx.Unencodable('to_frac: %s' % e.decl())
     r = (z3.simplify(r[0]), z3.simplify(r[1]))
-    cache[k] = r
+    cache[k] = (r[0], r[1], e)       # keep e alive: z3 re-uses the ids of freed terms
     return r
 
 
@@ -297,11 +301,14 @@ class IdProver:
                 s2.add(v == val)
             s2.add(raw != 0, da != 0, db != 0)
             self.queries += 1
+            STATS['queries'] += 1
             if s2.check() == z3.sat:
                 return False, s2.model()
         lhs = z3.simplify(raw, som=True)
         if z3.is_rational_value(lhs) and lhs.numerator_as_long() == 0:
             self.queries += 1
+            STATS['queries'] += 1
+            STATS['identities_closed_by_normalisation'] += 1
             return True, None
         s = self._solver()
         s.add(lhs != 0)
@@ -336,9 +343,11 @@ class IdProver:
 
     def _run(self, s):
         self.queries += 1
+        STATS['queries'] += 1
         t0 = symx._now()
         r = s.check()
         self.seconds += symx._now() - t0
+        STATS['seconds_x1000'] += int(1000 * (symx._now() - t0))
         if r == z3.unknown:
             raise Inconclusive('z3 unknown (odex): %s' % s.reason_unknown())
         return (r == z3.unsat), (s.model() if r == z3.sat else None)
